@@ -299,9 +299,10 @@ class HamiltonianDisplacementMove(
             [DisplacementContext], None
         ] = maxwell_boltzmann_distribution,
         operation: IntegratorType | None = None,
+        apply_constraints: bool = True,
     ) -> None:
         """Initialize the `HMCDisplacementMove` object."""
-        super().__init__(operation, apply_constraints=True)
+        super().__init__(operation, apply_constraints=apply_constraints)
 
         self.max_attempts: int = 10
         self.distribution: Callable[[HContextType], None] = distribution
